@@ -204,6 +204,7 @@ def split_clauses(spec_text):
     depth = 0
     cur_start = None
     bar_open = False
+    angle = 0
     i = 0
     ct = toks
     n = len(ct)
@@ -235,6 +236,13 @@ def split_clauses(spec_text):
                 depth += 1
             elif t.text in ")]}":
                 depth -= 1
+            elif t.text == "<" and (angle > 0 or (i >= 2 and ct[i - 1].text == ":" and ct[i - 2].text == ":")):
+                # turbofish / nested generic arguments: `Map::<int, Set<u64>>`
+                angle += 1
+            elif t.text == ">" and angle > 0 and not (i >= 1 and ct[i - 1].text in ("-", "=") and ct[i - 1].end == t.start):
+                angle -= 1
+            elif t.text == "," and depth == 0 and angle > 0:
+                pass
             elif t.text == "," and depth == 0:
                 # commas inside closure parameter lists `|a: int, b: int|` : detect by bar parity
                 seg = spec_text[cur_start:t.start] if cur_start is not None else ""
